@@ -8,7 +8,10 @@ class ToGFA2:
       if isinstance(oline.line, gfapy.line.segment.GFA1):
         items.append(str(oline))
       elif isinstance(oline.line, gfapy.line.edge.Link):
-        items.append(oline.line.eid + str(oline.orient))
+        # a link without identifier cannot be referred to: the edge is then
+        # left implicit (it is implied by the two consecutive segments)
+        if not gfapy.is_placeholder(oline.line.eid):
+          items.append(oline.line.eid + str(oline.orient))
     a = ["O"]
     a.append(self.field_to_s("path_name"))
     a.append(" ".join(items))
